@@ -85,7 +85,8 @@ class NaiveForecaster(_OptionalForecastingHorizonMixin, _BaseWindowForecaster):
         self._set_fh(fh)
 
         if self.strategy == "last":
-            if self.sp == 1:
+            # validate the seasonal periodicity before it is compared (True == 1)
+            if check_sp(self.sp) == 1:
                 if self.window_length is not None:
                     warn(
                         "For the `last` strategy, "
